@@ -539,6 +539,12 @@ func (s *Server) Prepare(conf *ServerConfig) (err error) {
 
 	s.dnsProxy = dnsProxy
 
+	// The request IDs, which are the keys of the ClientID cache, are only
+	// unique within a single proxy instance.  Make sure that the ClientIDs of
+	// the requests handled by the previous proxy aren't assigned to the
+	// requests of the new one.
+	s.clientIDCache.Clear()
+
 	s.setupAddrProc()
 
 	s.registerHandlers()
